@@ -237,7 +237,9 @@ def rule_rows(prog, rep, fn):
         where = f"pdb2pqr/cif.py:{lp.lineno} (atom_site)"
         full = U(lp.iter) in ("range(atoms.row_count)", "range(0, atoms.row_count)", "range(0, atoms.row_count, 1)")
         exits = [x for x in ast.walk(lp) if isinstance(x, (ast.Break, ast.Return)) and (isinstance(x, ast.Return) or enclosing_loops(x)[0] is lp)]
-        conts = [x for x in ast.walk(lp) if isinstance(x, ast.Continue) and enclosing_loops(x)[0] is lp]
+        from ..core import canon_guards
+        conts = [x for x in ast.walk(lp) if isinstance(x, ast.Continue) and enclosing_loops(x)[0] is lp
+                 and not all(("pdbx_PDB_model_num" in t_ or "group_PDB" in t_) for t_, _ in canon_guards(x, lp))]
         r7.add(f"rows|loop{k}", full and not exits and not conts,
                f"row loop {U(lp.iter)}: {'full range' if full else 'NOT the full row range'}; early exits {len(exits)}, skips {len(conts)} "
                "(mmCIF prescribes no row order: rows of one model need not be contiguous)", where)
@@ -317,7 +319,13 @@ def rule_flag(prog, rep):
                         r.bad(k, f"is_cif used in {type(st).__name__}: {U(st)[:60]}", where)
                         continue
                     harmless = True
-                    for s in iter_stmts(st.body + st.orelse):
+                    controlled = list(st.body) + list(st.orelse)
+                    from ..core import terminates
+                    if terminates(st.body) or (st.orelse and terminates(st.orelse)):
+                        blk_ = getattr(parent(st), "body", [])
+                        if st in blk_:
+                            controlled += blk_[blk_.index(st) + 1:]  # an early `continue`: the rest of the block is what the test controls
+                    for s in iter_stmts(controlled):
                         if isinstance(s, ast.Expr) and isinstance(s.value, ast.Call):
                             nm = U(s.value.func)
                             if not (nm.startswith("_LOGGER.") or nm.endswith(".write")):
@@ -325,7 +333,7 @@ def rule_flag(prog, rep):
                         elif isinstance(s, ast.Assign):
                             if not all(isinstance(t, ast.Name) and t.id in ("header",) for t in s.targets):
                                 harmless = False
-                        elif isinstance(s, (ast.If, ast.Pass)):
+                        elif isinstance(s, (ast.If, ast.Pass, ast.Continue)):
                             pass
                         else:
                             harmless = False
